@@ -393,32 +393,40 @@ class _ReloadWatch:
             return
         sub.res.probes["reload on a started simulation with an instruction cache: cache empty, counters 0/0"] += 1
 
+    def attach(self):
+        """Spy on the SUT's read_instruction (instance-level wrapper): the fetches really performed after the reload."""
+        im = self.sub.sut.state.instruction_memory
+        if getattr(im, "_dst_fetch_log", None) is None:
+            log = []
+            orig = im.read_instruction
+
+            def read_instruction(address, _orig=orig):
+                ins = _orig(address)
+                log.append((address, ins))
+                return ins
+
+            im.read_instruction = read_instruction
+            im._dst_fetch_log = log
+        self.log = im._dst_fetch_log
+        del self.log[:]
+
     def step(self):
         """One step() on the SUT with the fetch check (called instead of Subject.step)."""
         sub = self.sub
-        sim = sub.sut
-        st = sim.state
-        pl = st.pipeline
-        try:
-            if sim.is_done():
-                return sub.step("step")
-            stalled = pl.stalled is not None
-            pc = st.program_counter
-            had = bool(st.instruction_at_pc())
-        except Exception:  # noqa: BLE001
-            return sub.step("step")
+        st = sub.sut.state
         out = sub.step("step")
-        five = sub.mode == "five_stage_pipeline"
-        fetched = had and (not stalled or not five)
-        if fetched:
-            self.ref.access(pc, False)
-            im = st.instruction_memory
+        im = st.instruction_memory
+        try:
             backing = im.instruction_memory.instructions
-            pr = pl.pipeline_registers[0] if out[0] == "ok" else None
-            if pr is not None and pr.address_of_instruction == pc and pr.instruction is not backing.get(pc) and type(pr.instruction).__name__ != "EmptyInstruction":
-                sub.violate("C11", "stale-instruction-fetched-after-reload", address=pc, expected=repr(backing.get(pc)), got=repr(pr.instruction))
-            if (im.accesses, im.hits) != (self.ref.acc, self.ref.hits):
-                sub.violate("C11", "fetch-accounting-after-reload", expected=[self.ref.acc, self.ref.hits], got=[im.accesses, im.hits])
+        except AttributeError:
+            backing = None
+        for (a, got) in self.log:
+            self.ref.access(a, False)
+            if backing is not None and got is not backing.get(a):
+                sub.violate("C11", "stale-instruction-fetched-after-reload", address=a, expected=repr(backing.get(a)), got=repr(got))
+        if self.log and (im.accesses, im.hits) != (self.ref.acc, self.ref.hits):
+            sub.violate("C11", "fetch-accounting-after-reload", expected=[self.ref.acc, self.ref.hits], got=[im.accesses, im.hits])
+        del self.log[:]
         return out
 
 
@@ -454,6 +462,7 @@ def _run_api(trace, prop):
             if started and out[0] == "ok" and isa == "riscv" and settings["ic"]["enable"] and prop == "C11":
                 watch = _ReloadWatch(sub)
                 watch.after_reload()
+                watch.attach()
             elif not started:
                 watch = None
             performed += 1
